@@ -8,6 +8,7 @@ from ..deck import Deck
 from ..runner import Scn, verdict, sha, Vacuous
 
 ID = 'C08'
+DECORATE = ['interleave']
 LEVEL = 'model_checking'
 RULE = ('E1 enumeration: (a) a dedicated deck family aimed at the interleavings of pruning, de-duplication, '
         'caching and inlining - patently empty cells (s -s) at level 0, as filler inside a universe that is / '
